@@ -1,2 +1,79 @@
-From ZC Require Import Model.Base Model.Browser.
-Example C10_placeholder : True. Proof. exact I. Qed.
+(* C10 - the browser keeps learned services alive: refresh queries, rate limit, liveness. Statements only.
+   Model/Sched.v: QueryScheduler as a labelled transition system (including the two repairs made to the code), tied to the real
+   scheduler by replaying the logged handler invocations of a browsing host (shared with C04). Vocabulary: Proofs/C10_defs.v
+   (trun = timed run built from sstep, fires, refresh_passes, punctual, well_timed, live, post_startup, refreshed_by, rescue_chain). *)
+From ZC Require Import Model.Base Model.Dict Model.Sched Gen.Const Proofs.C10_defs Proofs.C10_steps Proofs.C10_sched.
+
+(* the four start-up queries: after a random delay, then 1 s, 4 s and 9 s apart; the first is QU exactly when no question type is
+   forced; after the fourth the refresh timer is armed one inter-query delay later. Pointer events interleaved anywhere do not matter. *)
+Theorem C10_startup : forall types delay qnone t0 rnd ls es,
+  trun types (sched_init delay qnone) ((LStart t0 rnd, t0) :: ls) = Some es ->
+  Forall ptr_or_fire (map fst ls) -> punctual es ->
+  forall i e, (i < 4)%nat -> nth_error (fires es) i = Some e ->
+    pass_kind e = Some TStartup /\ e_time e = startup_time t0 rnd i /\
+    e_out e = [startup_send types qnone t0 rnd i] /\
+    (i = 3%nat -> sc_next_run (e_post e) = Some (e_time e + delay, TReady) /\
+                  sc_min_next (e_post e) = e_time e + delay).
+Proof. exact start_up. Qed.
+
+(* after start-up successive queries are at least the configured delay apart - for every label order, late timers included *)
+Theorem C10_rate : forall types delay qnone t0 rnd ls es,
+  trun types (sched_init delay qnone) ((LStart t0 rnd, t0) :: ls) = Some es ->
+  Forall ptr_or_fire (map fst ls) -> well_timed es ->
+  spaced delay (map ss_now (skipn 4 (trace es))).
+Proof. exact rate_limit_trace. Qed.
+
+(* the scheduler keeps running for as long as the browser is active *)
+Theorem C10_live : forall types s t0 rnd ls s' tr,
+  ~ In LStop ls -> srun types s (LStart t0 rnd :: ls) [] = Some (s', tr) ->
+  sc_next_run s' <> None.
+Proof. exact liveness. Qed.
+
+(* every pointer that stays unrefreshed and unwithdrawn is asked for at its scheduled instant (75 % of the TTL, then +10 % steps),
+   at most one inter-query delay late, and the next rescue query is scheduled iff it falls before the expiry *)
+Theorem C10_refresh : forall types delay qnone t0 rnd ls1 ls2 es1 es2 q,
+  0 <= delay -> 0 <= t0 + rnd ->
+  trun types (sched_init delay qnone) ((LStart t0 rnd, t0) :: ls1) = Some es1 ->
+  Forall ptr_or_fire (map fst ls1) -> well_timed es1 -> (4 <= length (fires es1))%nat ->
+  let s := final (sched_init delay qnone) es1 in
+  live s q -> last_time t0 es1 <= sq_when q ->
+  trun types s ls2 = Some es2 -> punctual es2 ->
+  Forall (untouched (sq_alias q)) (map fst ls2) ->
+  (exists e, In e es2 /\ sq_when q + delay < e_time e) ->
+  exists es3 e es4, es2 = es3 ++ e :: es4 /\ refreshed_by q e /\ rescue_chain q e /\
+    sq_when q <= e_time e <= sq_when q + delay.
+Proof. exact refresh_on_time_run. Qed.
+
+(* the general bound, with no assumption on when the query was scheduled: the rate limit may hold it until sc_min_next *)
+Theorem C10_refresh_general : forall types s q ls es,
+  WF s -> post_startup s -> live s q -> trun types s ls = Some es -> punctual es ->
+  Forall (untouched (sq_alias q)) (map fst ls) ->
+  (exists e, In e es /\ Z.max (sq_when q + sc_delay s) (sc_min_next s) < e_time e) ->
+  exists es1 e es2, es = es1 ++ e :: es2 /\ live (e_pre e) q /\ refreshed_by q e /\ rescue_chain q e /\
+    sq_when q <= e_time e <= Z.max (sq_when q + sc_delay s) (sc_min_next s).
+Proof. exact refresh_on_time_general. Qed.
+
+(* refreshed or withdrawn pointers cause no query on their old schedule *)
+Theorem C10_cancelled : forall types s ls es c,
+  WF s -> trun types s ls = Some es -> In c (sc_heap s) -> sq_cancelled c = true ->
+  forall e x, In e es -> In x (e_ready e) -> sq_id x <> sq_id c.
+Proof. exact cancelled_silent. Qed.
+
+(* a refresh whose 75 % point lies within the inter-query delay of the scheduled one keeps the schedule (no churn), and only then *)
+Theorem C10_no_churn : forall s a n created ttl,
+  reschedule_ptr_first_refresh s a n created ttl = s <->
+  exists cur, registered_query s a = Some cur /\ Z.abs (created + 750 * ttl - sq_when cur) <= sc_delay s.
+Proof. exact no_churn. Qed.
+
+Print Assumptions C10_startup.
+Print Assumptions C10_rate.
+Print Assumptions C10_live.
+Print Assumptions C10_refresh.
+Print Assumptions C10_refresh_general.
+Print Assumptions C10_cancelled.
+Print Assumptions C10_no_churn.
+
+(* non-vacuity: PTR ttl 4500 learned at 20 s, PTR ttl 1200 at 60 s, delay 10 s - the history on which the unrepaired code sent
+   nothing for the second pointer before it expired - yields a refresh query at 960 000 ms *)
+Check two_pointers.
+Check refresh_on_time_applies.
